@@ -373,3 +373,119 @@ Proof.
   unfold cum_of, cumZ, cum_g. rewrite <- wrap_zero at 1.
   rewrite (fold_wrap_lin (fun s => has_name e (frames_of p s)) i (p_sample p) 0). reflexivity.
 Qed.
+
+(* ------------------------------------------------------------------ merge, negation, subtraction *)
+Definition wf_profile (p : profile) : Prop := uniform (List.length (p_sampletype p)) (p_sample p).
+
+Lemma compatible_ok_len p pb : compatible p pb = Ok true -> List.length (p_sampletype p) = List.length (p_sampletype pb).
+Proof.
+  unfold compatible. destruct (negb (ovt_eqb _ _)); [discriminate|].
+  destruct (list_eqb vt_eqb (p_sampletype p) (p_sampletype pb)) eqn:E; simpl; [|discriminate].
+  intros _. revert E. generalize (p_sampletype pb). induction (p_sampletype p) as [|a r IH]; intros l E; destruct l; simpl in E; try discriminate; [reflexivity|].
+  apply andb_true_iff in E as [_ E]. simpl. f_equal. apply IH, E.
+Qed.
+
+Lemma first_err_compat p0 l : first_err (map (compatible p0) l) = Ok true ->
+  forall x, In x l -> List.length (p_sampletype p0) = List.length (p_sampletype x).
+Proof.
+  induction l as [|a r IH]; simpl; intros H x Hx; [destruct Hx|].
+  destruct (compatible p0 a) as [b|e] eqn:E; [|discriminate].
+  destruct Hx as [<-|Hx]; [| apply IH; assumption].
+  apply compatible_ok_len. unfold compatible in *.
+  destruct (negb (ovt_eqb _ _)); [discriminate|]. destruct (negb (list_eqb _ _ _)); [discriminate|]. reflexivity.
+Qed.
+
+Lemma first_err_true l : forall b, first_err l = Ok b -> b = true.
+Proof.
+  induction l as [|a r IH]; simpl; intros b H; [inversion H; reflexivity|].
+  destruct a; [apply IH, H | discriminate].
+Qed.
+
+(* report_additive: every entry-level sum of the merged profile is the sum over the inputs *)
+Lemma merge_additive_lemma ps r g i :
+  merge ps = Ok r -> (forall p, In p ps -> wf_profile p) -> respects_key g ->
+  eq64 (lin g i (p_sample r)) (fold_right (fun p acc => lin g i (p_sample p) + acc) 0 ps).
+Proof.
+  intros M W R. pose proof M as M0. unfold merge in M. destruct ps as [|p0 rest]; [discriminate|].
+  destruct (first_err (map (compatible p0) rest)) as [b|e] eqn:F; [|discriminate].
+  pose proof (first_err_true _ _ F) as ->.
+  inversion M as [Hr]. clear M. rewrite <- lin_flat_map.
+  cbn [p_sample set_samples].
+  apply (merge_samples_conserves g i (List.length (p_sampletype p0))); [exact R|].
+  intros s Hs. apply in_flat_map in Hs as [p [Hp Hs]].
+  destruct Hp as [<-|Hp]; [apply (W p0 (or_introl eq_refl)), Hs|].
+  rewrite (first_err_compat p0 rest F p Hp). apply (W p (or_intror Hp)), Hs.
+Qed.
+
+(* Scale(-1): every column is scaled, so the keep rule coincides with the documented one *)
+Lemma keep_written_all_scaled rs : forall l,
+  forallb (fun r => negb (is_one r)) rs = true -> List.length l = List.length rs ->
+  keep_written rs l = keep_documented rs l.
+Proof.
+  unfold keep_documented. induction rs as [|r rr IH]; intros l A L; destruct l as [|v vr]; simpl in *; try discriminate; [reflexivity|].
+  apply andb_true_iff in A as [A1 A2]. rewrite A1. simpl. f_equal. apply IH; [exact A2 | lia].
+Qed.
+
+Lemma scale_vals_length rs : forall l, List.length (scale_vals rs l) = List.length l.
+Proof. induction rs as [|r rr IH]; intros l; destruct l; simpl; try reflexivity. rewrite IH. reflexivity. Qed.
+
+Lemma neg_ratios_spec (sts : list valuetype) :
+  let rs := map (fun _ => (-1)%Q) sts in
+  forallb (fun r => negb (is_one r)) rs = true /\ List.length rs = List.length sts
+  /\ forall i, (i < List.length sts)%nat -> nth_error rs i = Some (inject_Z (-1)).
+Proof.
+  induction sts as [|a r IH]; simpl.
+  - repeat split. intros i Hi. lia.
+  - destruct IH as [A [B C]]. repeat split.
+    + exact A.
+    + simpl in B. rewrite B. reflexivity.
+    + intros i Hi. destruct i; [reflexivity|]. simpl. apply C. lia.
+Qed.
+
+Lemma scale_neg_lemma p g i :
+  wf_profile p -> ignores_values g ->
+  lin g i (p_sample (scale_all keep_written (-1) p)) = - lin g i (p_sample p).
+Proof.
+  intros W G. unfold scale_all. change (is_one (-1)) with false. cbv iota.
+  set (rs := map (fun _ => (-1)%Q) (p_sampletype p)).
+  destruct (neg_ratios_spec (p_sampletype p)) as [A [B C]]. fold rs in A, B, C.
+  assert (in_F4 rs p = false) as F.
+  { unfold in_F4. destruct (forallb is_one rs); [reflexivity|]. simpl.
+    apply not_true_is_false. intros X. apply existsb_exists in X as [s [Hs X]].
+    unfold f4_sample in X. rewrite keep_written_all_scaled in X.
+    - destruct (keep_documented rs _); discriminate.
+    - exact A.
+    - rewrite scale_vals_length, B. apply W, Hs. }
+  rewrite (scale_n_keeps_nonzero_lemma rs p g i F).
+  destruct (Nat.ltb i (List.length (p_sampletype p))) eqn:Li.
+  - apply Nat.ltb_lt in Li. rewrite (lin_map_scale g rs i (-1) _ G (C i Li)). lia.
+  - apply Nat.ltb_ge in Li.
+    assert (forall ss, (forall s, In s ss -> val_at i s = 0) -> lin g i ss = 0) as Z0.
+    { induction ss as [|s r IH]; simpl; intros H; [reflexivity|].
+      rewrite (H s (or_introl eq_refl)), IH; [destruct (g s); reflexivity | intros x Hx; apply H; now right]. }
+    rewrite (Z0 (p_sample p)), Z0; [reflexivity | |].
+    + intros s' Hs'. apply in_map_iff in Hs' as [s [<- Hs]]. unfold val_at, scale_sample. simpl.
+      apply nth_overflow. rewrite scale_vals_length. rewrite (W s Hs). exact Li.
+    + intros s Hs. unfold val_at. apply nth_overflow. rewrite (W s Hs). exact Li.
+Qed.
+
+(* diff_is_subtraction at the merge: negating the base and merging subtracts, entry by entry *)
+Lemma diff_subtracts_lemma p pb r g i :
+  merge [p; scale_all keep_written (-1) pb] = Ok r ->
+  wf_profile p -> wf_profile pb -> respects_key g ->
+  eq64 (lin g i (p_sample r)) (lin g i (p_sample p) - lin g i (p_sample pb)).
+Proof.
+  intros M Wp Wb R.
+  assert (wf_profile (scale_all keep_written (-1) pb)) as Wn.
+  { unfold wf_profile, scale_all. change (is_one (-1)) with false. cbv iota.
+    unfold scale_n. destruct (forallb is_one _); [exact Wb|].
+    intros s Hs. cbn [p_sample set_samples p_sampletype] in *.
+    apply filter_In in Hs as [Hs _]. apply in_map_iff in Hs as [s0 [<- Hs0]].
+    unfold scale_sample. simpl. rewrite scale_vals_length. apply Wb, Hs0. }
+  pose proof (merge_additive_lemma _ r g i M) as A. simpl in A.
+  rewrite (scale_neg_lemma pb g i Wb (respects_ignores g R)) in A.
+  destruct A as [k A].
+  - intros q [<-|[<-|[]]]; assumption.
+  - exact R.
+  - exists k. lia.
+Qed.
